@@ -121,6 +121,41 @@ func vfMultiGroupRun(sc vfScript) []map[string]any {
 		}(t)
 	}
 	wg.Wait()
+	// the device is handed the push payload of a message it sent itself (a push relay echoes it, or the standalone
+	// out-of-store service runs over the same datastore): opening it must not move the sending chain - the next
+	// envelope carries the next counter
+	for gi, g := range groups {
+		var lastEnv []byte
+		for _, s := range all {
+			if s.gi == gi {
+				lastEnv = s.env
+			}
+		}
+		if lastEnv == nil {
+			continue
+		}
+		if menv, hdr, err := snd.OpenEnvelopeHeaders(lastEnv, g); err == nil {
+			// what the message store does when the device sees its own entry in the log
+			if gpk, err := g.GetPubKey(); err == nil {
+				if somd, err := snd.GetOwnMemberDeviceForGroup(g); err == nil {
+					_, _ = snd.OpenEnvelopePayload(ctx, menv, hdr, gpk, somd.Device(), vfCID(lastEnv))
+					_ = snd.UpdateOutOfStoreGroupReferences(ctx, vfRaw(somd.Device()), hdr.Counter, g)
+				}
+			}
+			if oos, err := snd.SealOutOfStoreMessageEnvelope(vfCID(lastEnv), menv, hdr, g); err == nil {
+				if b, err := proto.Marshal(oos); err == nil {
+					_, _, _, _, _ = snd.OpenOutOfStoreMessage(ctx, b)
+				}
+			}
+		}
+		payload, _ := proto.Marshal(&protocoltypes.EncryptedMessage{Plaintext: []byte("after-own-push-" + names[gi])})
+		env, err := snd.SealEnvelope(ctx, g, payload)
+		if err != nil {
+			errs++
+		} else {
+			all = append(all, sealed{gi, env, payload})
+		}
+	}
 	out := []map[string]any{{"ev": "reset", "id": sc.ID}}
 	for gi, g := range groups {
 		gpk, _ := g.GetPubKey()
